@@ -17,7 +17,7 @@ from vcheck.core import Family, Spec
 
 ID = "C09"
 FUNCTIONS = ["pyoak.node:ASTNode.accept", "pyoak.visitor:ASTVisitor.visit", "pyoak.visitor:ASTTransformVisitor._transform_children", "pyoak.visitor:ASTTransformVisitor.generic_visit"]
-ACTIONS = ["descend", "same", "rewrite", "replace", "remove", "raise"]
+ACTIONS = ["descend", "same", "rewrite", "replace", "equal-copy", "remove", "raise"]
 METHOD_SETS = {
     "own-classes": ["VLeaf", "VSubLeaf", "VStr2", "VMany", "VReq", "VOne", "VPair", "VMixed", "VInh", "VAbAc"],
     "base-class-only": ["VBase"],
@@ -56,6 +56,7 @@ def make_harness(shapes, method_sets):
         root = build(recipe)
         strict = e.bool("strict")
         actions: dict[int, str] = {}
+        produced: dict[int, Any] = {}
         called: dict[int, str] = {}
         order: list[int] = []
 
@@ -73,9 +74,15 @@ def make_harness(shapes, method_sets):
             if a == "same":
                 return node
             if a == "rewrite":
-                return dataclasses.replace(node, v=node.v + 100)
+                produced[id(node)] = dataclasses.replace(node, v=node.v + 100)
+                return produced[id(node)]
             if a == "replace":
-                return VLeaf(v=999)
+                produced[id(node)] = VLeaf(v=999)
+                return produced[id(node)]
+            if a == "equal-copy":
+                # a different object that compares equal to the visited node (same content, same origin)
+                produced[id(node)] = dataclasses.replace(node)
+                return produced[id(node)]
             if a == "remove":
                 return None
             raise _RuleError("rule raises")
@@ -133,7 +140,9 @@ def make_harness(shapes, method_sets):
             if a == "rewrite":
                 return ("rewritten", n)
             if a == "replace":
-                return ("replaced",)
+                return ("replaced", n)
+            if a == "equal-copy":
+                return ("copied", n)
             if a == "remove":
                 return ("removed",)
             raise _RefRaise()
@@ -190,12 +199,12 @@ def make_harness(shapes, method_sets):
             if res is None or id(res) in inputs:
                 scenario.update(at=where, expected=kind, got=repr(res)[:120])
                 e.fail("changed-node-is-not-a-new-node", scenario=scenario)
-            if kind == "replaced":
-                if type(res) is not VLeaf or res.v != 999:
-                    scenario.update(at=where)
-                    e.fail("replacement-not-substituted", scenario=scenario)
-                return
             n = exp[1]
+            if kind in ("replaced", "copied", "rewritten") and res is not produced.get(id(n)):
+                scenario.update(at=where, rule_result=kind)
+                e.fail("replacement-not-substituted", scenario=scenario)
+            if kind in ("replaced", "copied"):
+                return
             if type(res) is not type(n):
                 scenario.update(at=where)
                 e.fail("rebuilt-node-of-wrong-class", scenario=scenario)
